@@ -84,6 +84,13 @@ RULE = ("(ra) RaggedArray / ndarray inputs with 1..300 rows (row counts around t
         "of equal total length, the same files with another atom selection of equal size, or other files of unequal total "
         "(control) -- every returned array is KEPT and compared (digest taken at return and again after the last load) with "
         "its own expected concatenation. "
+        "(zrow, round 3s second wave) .h5 files written directly with PyTables EArrays in which one or two TABLES HAVE ZERO "
+        "ROWS (first / middle / last / two / random positions; ra.save never writes one), node names as ra.save gives them "
+        "(tag_0i, zero-padded) or another tag, 2..8 tables, 6 dtypes, 1-D and multi-dimensional items, strides 1..3: ra.load "
+        "of the file (all keys, strided) is the reference -- one length per table, zeros included, strided load = slicing "
+        "the full load -- and load_h5_as_striped on EVERY rank of world sizes 1..4 must report the same global lengths and "
+        "hold tables r, r+n, ... strided (also a rank whose tables are all empty); model: load / load_h5_as_striped on the "
+        "file as a node list. "
         "non-trivial := (ra/raw) >= 2 rows of different lengths or a stride > 1 or a proper key subset; "
         "(lac/npy) >= 2 files of different strided length")
 TRUSTED = ["translator/tr_store.py (expressions, slices and loop bodies of ra.save / ra.load / util.load / mpi.io -> "
@@ -100,7 +107,8 @@ TRUSTED = ["translator/tr_store.py (expressions, slices and loop bodies of ra.sa
            "replayed to the other ranks (the loaders have no other collective)"]
 ASSUMPTIONS = ["stride >= 1 (the loaders raise or misbehave on stride < 1; outside the property)",
                "rows have at least one element: PyTables refuses zero-sized CArrays, ra.save raises ValueError "
-               "(modelled as a rejected input, checked as such)",
+               "(modelled as a rejected input, checked as such); files holding zero-row tables (EArrays, stream zrow) are "
+               "legal input of the loaders",
                "a file holding one array loads as an ndarray by documented design; it is compared as one row",
                "lengths hints, when given, are the true lengths (the docstring: 'a speed benefit only')"]
 EXHAUSTIVE = {"thorough": False}
@@ -146,6 +154,8 @@ def _from_bits(bits, dt, shape):
 def _to_bits(a):
     """array (n, *tail) -> list of n elements, each the list of the bit patterns of its items"""
     a = np.ascontiguousarray(a)
+    if a.shape[0] == 0:
+        return []
     u = a.view(_UVIEW[a.dtype.itemsize]).reshape(a.shape[0], -1)
     return [[int(x) for x in row] for row in u]
 
@@ -423,6 +433,38 @@ def _ord_case(rng, layout, equal):
 
 
 _ORD_LAYOUTS = ["unpadded", "dirs-rev", "dup-names", "shuffled"]
+_ZROW_WHERE = ["first", "middle", "last", "two", "random"]
+
+
+def _zrow_case(rng, where):
+    """round 3s (second wave): an .h5 file some of whose tables have ZERO rows -- an EArray nobody appended to yet; legal
+    PyTables, never written by ra.save (zero-sized CArrays are refused) -- named the way ra.save names its nodes.  ra.load
+    of the same file is the reference for load_h5_as_striped at world sizes 1..4"""
+    n = rng.randint(3 if where in ("middle", "two") else 2, 8)
+    dt = rng.choice(["int32", "int64", "float32", "float64", "uint8", "int16"])
+    tail = rng.choice([[], [], [2], [3], [2, 2]])
+    stride = rng.choice([1, 2, 3])
+    if where == "first":
+        z = [0]
+    elif where == "last":
+        z = [n - 1]
+    elif where == "middle":
+        z = [rng.randint(1, n - 2)]
+    elif where == "two":
+        z = rng.sample(range(n), 2)
+    else:
+        z = rng.sample(range(n), rng.randint(1, n - 1))
+    for _ in range(500):
+        lens = [0 if i in z else rng.randint(1, 7) for i in range(n)]
+        elems = [_gen_elems(rng, dt, tail, L, False) for L in lens]
+        st = [tuple(map(tuple, e[::stride])) for e in elems if e]
+        if len(set(st)) == len(st):            # the non-empty tables are pairwise different after striding
+            break
+    tag = rng.choice(["arr", "arr", "arr", "trj", "x"])
+    w = len(str(n)) + 1
+    return {"kind": "zrow", "where": where, "dtype": dt, "tail": tail, "stride": stride,
+            "nodes": [{"name": tag + "_" + str(i).zfill(w), "elems": e} for i, e in enumerate(elems)],
+            "worlds": [P for P in (1, 2, 3, 4) if P <= n]}
 
 
 def _resave_case(rng, shape, j=None):
@@ -552,6 +594,9 @@ def generate(rng, tier):
             cases.append(_resave_case(rng, shape, j))
     for j in range(24 if quick else 150):
         cases.append(_lac2_case(rng, j))
+    # round 3s (second wave): files with zero-row tables, world sizes 1..4
+    for j in range(20 if quick else 150):
+        cases.append(_zrow_case(rng, _ZROW_WHERE[j % len(_ZROW_WHERE)]))
     # rows longer than 2^20 / 2^21 entries
     cases.append(_longrow_case(rng, "quick", tail=[]))
     cases.append(_longrow_case(rng, "quick", tail=[2]))
@@ -702,6 +747,27 @@ def _run_ord_quiet(c, d):
                                     "data_ok": bool(np.array_equal(xyz, np.concatenate(indiv)))}
             except Exception as ex:
                 res["trj"][name] = _err(ex)
+    return res
+
+
+def _run_zrow(c, d):
+    import tables
+    from enspara import ra
+    from enspara.mpi import io as mio
+    dt, tail, s = np.dtype(c["dtype"]), c["tail"], c["stride"]
+    path = os.path.join(d, "z.h5")
+    with tables.open_file(path, "w") as h:
+        for nd in c["nodes"]:
+            e = h.create_earray("/", nd["name"], atom=tables.Atom.from_dtype(dt), shape=tuple([0] + tail))
+            if nd["elems"]:
+                e.append(_from_bits(nd["elems"], c["dtype"], [len(nd["elems"])] + tail))
+    res = {"names": _node_names(path)}
+    for name, st in (("full", 1), ("strided", s)):
+        try:
+            res[name] = _canon(ra.load(path, stride=st))
+        except Exception as ex:
+            res[name] = _err(ex)
+    res["h5"] = _striped_runs(c["worlds"], lambda: mio.load_h5_as_striped(path, stride=s))
     return res
 
 
@@ -1025,6 +1091,8 @@ def run_impl(c):
             return _run_longrow(c, d)
         if c["kind"] == "ord":
             return _run_ord(c, d)
+        if c["kind"] == "zrow":
+            return _run_zrow(c, d)
         if c["kind"] == "lachist":
             return _run_lachist(c, d)
         if c["kind"] == "lac2":
@@ -1107,10 +1175,55 @@ def _oracle_ord(c, r):
     return _first_per_key(out, "(world size, rank) pairs")
 
 
+def _oracle_zrow(c, r):
+    """the serial loader's report of the same file is the reference: one length per table (zeros included), tables in
+    listed (= name) order; a strided load is the slicing of the full load; rank r of n holds tables r, r+n, ... strided"""
+    out = []
+    if "err" in r:
+        return [("zrow", "writing the file raised %s" % r)]
+    nodes, s = c["nodes"], c["stride"]
+    rows = [nd["elems"] for nd in nodes]
+    what = "file with tables of %s rows (%s%s, EArrays %s..), stride %d" % (
+        [len(x) for x in rows], c["dtype"], c["tail"] or "", nodes[0]["name"], s)
+    if r["names"] != [nd["name"] for nd in nodes]:
+        out.append(("listing-order", "%s: list_nodes gave %s" % (what, r["names"])))
+    full, strided = r["full"], r["strided"]
+    if "err" in full or "err" in strided:
+        return out + [("roundtrip", "%s: ra.load raised %s / %s" % (what, full.get("err"), strided.get("err")))]
+    if full.get("t") != "ra" or strided.get("t") != "ra":
+        return out + [("roundtrip", "%s: ra.load did not return a RaggedArray" % what)]
+    if _split(full, len(rows)) != rows or full["lengths"] != [len(x) for x in rows]:
+        out.append(("roundtrip", "%s: ra.load reports lengths %s and not the tables' rows" % (what, full["lengths"])))
+    if full["dtype"] != c["dtype"] or full["tail"] != c["tail"]:
+        out.append(("roundtrip-dtype", "%s: dtype/shape %s %s" % (what, full["dtype"], full["tail"])))
+    full_rows = _split(full, len(rows))
+    if _split(strided, len(rows)) != [x[::s] for x in full_rows] or strided["lengths"] != [_ceil(L, s) for L in full["lengths"]]:
+        out.append(("stride-subset", "%s: load(stride=%d) reports lengths %s; slicing the full load gives %s" % (
+            what, s, strided["lengths"], [_ceil(L, s) for L in full["lengths"]])))
+    ser_rows = _split(strided, len(rows))
+    for P, per_rank in r["h5"].items():
+        P = int(P)
+        for rank, x in enumerate(per_rank):
+            where = "%s, world size %d rank %d" % (what, P, rank)
+            if "err" in x:
+                out.append(("striped-h5", "%s: load_h5_as_striped raised %s" % (where, x["err"])))
+                continue
+            if x["lengths"] != strided["lengths"]:
+                out.append(("striped-h5-lengths", "%s: global lengths %s, but the serial loader (ra.load) reports %s" % (
+                    where, x["lengths"], strided["lengths"])))
+            exp = [e for row in ser_rows[rank::P] for e in row]
+            if x["data"] != exp or x["dtype"] != c["dtype"] or x["tail"] != c["tail"]:
+                out.append(("striped-h5", "%s: the rank's local array (%d items, %s%s) is not tables %s of the serial load "
+                            "(%d items)" % (where, len(x["data"]), x["dtype"], x["tail"] or "", list(range(len(rows)))[rank::P], len(exp))))
+    return _first_per_key(out, "(world size, rank) pairs")
+
+
 def _oracle_extra(c, r):
     out = []
     if c["kind"] == "longrow":
         return _oracle_longrow(c, r)
+    if c["kind"] == "zrow":
+        return _oracle_zrow(c, r)
     if c["kind"] == "ord":
         return _oracle_ord(c, r)
     if c["kind"] == "long":
@@ -1132,7 +1245,7 @@ def _oracle_extra(c, r):
 def oracle(c, r):
     if "err" in r and str(r["err"]).startswith("Unexpected"):
         return [("harness", str(r))]
-    if c["kind"] in ("long", "lachist", "longrow", "ord"):
+    if c["kind"] in ("long", "lachist", "longrow", "ord", "zrow"):
         return _oracle_extra(c, r)
     if c["kind"] == "lac2":
         return _oracle_lac2(c, r)
@@ -1362,9 +1475,30 @@ def _ord_term(c, r):
     return " && ".join("(%s)" % p for p in parts)
 
 
+def _zrow_file(c):
+    return clist(c["nodes"], lambda nd: "(mkNode %s %s %s %s)" % (
+        _cstr(nd["name"]), _dtc(c["dtype"]), _cnl(c["tail"]), _celems(nd["elems"])), "node")
+
+
+def _zrow_term(c, r):
+    """the model's loaders on the file as a node list (zero-row nodes included): serial loads and every rank of every world"""
+    f, s = _zrow_file(c), cz(c["stride"])
+    parts = ["leqb str_eqb (sort_keys (map nkey f)) %s" % clist(r["names"], _cstr, "str"),
+             "loaded_eqb (load f None 1%%Z) %s" % _cloaded(r["full"]),
+             "loaded_eqb (load f None %s) %s" % (s, _cloaded(r["strided"]))]
+    for P, per_rank in r["h5"].items():
+        for rank, x in enumerate(per_rank):
+            exp = ("(inl %s)" % _cloaded(x)) if "err" in x else _cres(x["lengths"], x["data"])
+            parts.append("res_eqb (load_h5_as_striped %s %s f %s) %s" % (cn(rank), cn(int(P)), s, exp))
+    return "(let f := %s in %s)" % (f, " && ".join("(%s)" % p for p in parts))
+
+
 def coq_show(c):
     if c["kind"] in ("long", "lachist", "longrow", "lac2"):
         return "tt"
+    if c["kind"] == "zrow":
+        return "map (fun P => map (fun r => load_h5_as_striped r P %s %s) (seq 0 P)) %s" % (
+            _zrow_file(c), cz(c["stride"]), _cnl(c["worlds"]))
     if c["kind"] == "ord":
         return "map (fun P => map (fun r => load_npy_as_striped r P %s %s) (seq 0 P)) %s" % (
             _ord_npy_files(c), cz(c["stride"]), _cnl(c["worlds"]))
@@ -1388,6 +1522,8 @@ def coq_check(c, r):
         return None
     if c["kind"] == "ord":
         return _ord_term(c, r)
+    if c["kind"] == "zrow":
+        return _zrow_term(c, r) if "h5" in r else None
     if c["kind"] == "ra":
         args = "%s %s" % (_cstr(c["tag"]), _carr(c))
         if "save_err" in r:
@@ -1435,6 +1571,8 @@ def nontrivial(c, r):
         return True
     if c["kind"] == "ord":
         return len(c["files"]) >= 2 and [f["rel"] for f in c["files"]] != sorted(f["rel"] for f in c["files"])
+    if c["kind"] == "zrow":
+        return "h5" in r and any(len(nd["elems"]) == 0 for nd in c["nodes"]) and any(len(nd["elems"]) for nd in c["nodes"])
     if c["kind"] == "ra":
         rows = c["rows"]
         return (len({len(x) for x in rows}) >= 2 or c["stride"] > 1 or
@@ -1473,6 +1611,28 @@ def tags(c, r):
             if any("err" not in x and len(x["lengths"]) and len(c["files"][rank::int(P)]) == 1
                    for P, pr in r["h5"].items() for rank, x in enumerate(pr)):
                 t.append("ord-h5-rank-owns-one-row")
+    elif c["kind"] == "zrow":
+        if "h5" in r and all("err" not in x for pr in r["h5"].values() for x in pr):
+            z = [i for i, nd in enumerate(c["nodes"]) if not nd["elems"]]
+            n = len(c["nodes"])
+            if 0 in z:
+                t.append("zrow-first")
+            if n - 1 in z:
+                t.append("zrow-last")
+            if any(0 < i < n - 1 for i in z):
+                t.append("zrow-middle")
+            if len(z) >= 2:
+                t.append("zrow-two-empty-tables")
+            for P in c["worlds"]:
+                t.append("zrow-world-%d" % P)
+                if any(all(i in z for i in range(n)[rank::P]) for rank in range(P)):
+                    t.append("zrow-rank-holds-no-row")
+            if c["stride"] > 1:
+                t.append("zrow-stride>1")
+            if c["tail"]:
+                t.append("zrow-multi-dim")
+            if not c["nodes"][0]["name"].startswith("arr_"):
+                t.append("zrow-other-tag")
     elif c["kind"] == "lac2":
         if "steps" in r and all("at_end" in x for x in r["steps"]):
             t.append("lac2-" + c["variant"])
@@ -1559,7 +1719,10 @@ ESSENTIAL_TAGS = ["form-ra", "form-nd", "rows-10..99", "rows>=100", "stride>1", 
                   "resave-three-saves", "resave-other-tag", "resave-other-dtype",
                   "lac2", "lac2-other-files", "lac2-other-selection", "lac2-other-files-unequal-total",
                   "lac2-equal-overall-shape", "lac2-equal-shape-other-files", "lac2-three-loads", "lac2-concatenate-trjs",
-                  "lac2-worker-counts-differ"]
+                  "lac2-worker-counts-differ",
+                  # round 3s, second wave
+                  "zrow", "zrow-first", "zrow-middle", "zrow-last", "zrow-two-empty-tables", "zrow-world-1", "zrow-world-2",
+                  "zrow-world-3", "zrow-world-4", "zrow-rank-holds-no-row", "zrow-stride>1", "zrow-multi-dim", "zrow-other-tag"]
 
 
 def search(rng, tier):
@@ -1579,7 +1742,8 @@ def search(rng, tier):
     for c in ([_ra_case(rng, n, True, perm=pm, equal=eq) for n in (2, 3, 11) for pm in ("rev", "perm") for eq in (False, True)] +
               [_ord_case(rng, lay, eq) for lay in _ORD_LAYOUTS for eq in (False, True)] +
               [_longrow_case(rng, "quick") for _ in range(2)] + [_lac_distinct_case(rng) for _ in range(10)] +
-              [_resave_case(rng, sh) for sh in _RESAVE_SHAPES] + [_lac2_case(rng) for _ in range(10)]):
+              [_resave_case(rng, sh) for sh in _RESAVE_SHAPES] + [_lac2_case(rng) for _ in range(10)] +
+              [_zrow_case(rng, wh) for wh in _ZROW_WHERE]):
         r = run_impl(c)
         for key, msg in oracle(c, r):
             found.append((key, msg, c, r))
